@@ -139,4 +139,121 @@ theorem proj_outside_kids_from (f : Table) (g : Tag) : ∀ (ts : List Tree) (uf 
       rfl
 end
 
+/-! ### types without buffers below fixed-length lists have clean buffer trees -/
+
+theorem kp : (Kind.plain == Kind.flist) = false := by decide
+theorem ke : (Kind.elems == Kind.flist) = false := by decide
+theorem km : (Kind.map == Kind.flist) = false := by decide
+theorem kf : (Kind.flist == Kind.flist) = true := by decide
+
+theorem cleanAllOpt_get (uf : Bool) : ∀ (cs : List (Option Ty)) (i : Nat) (c : Option Ty),
+    cleanAllOpt uf cs = true → cs[i]? = some c → cleanOpt uf c = true
+  | [], i, c, _, h => by simp at h
+  | d :: ds, 0, c, hc, h => by simp at h; subst h; simp [cleanAllOpt] at hc; exact hc.1
+  | d :: ds, i + 1, c, hc, h => by
+      simp [cleanAllOpt] at hc
+      exact cleanAllOpt_get uf ds i c hc.2 (by simpa using h)
+
+mutual
+theorem shape_clean : ∀ (v : Val) (t : Ty) (uf : Bool), cleanTy uf t = true → dirty uf (shape t v) = false
+  | .str bs, t, uf, h => by
+      cases t with
+      | string => simp [cleanTy] at h; simp [shape, dirty, dirtyKids, h]
+      | _ => simp [shape, dirty, dirtyKids, isBufKind]
+  | .list vs, t, uf, h => by
+      cases t with
+      | list e =>
+        simp [cleanTy] at h
+        obtain ⟨huf, he⟩ := h
+        subst huf
+        simp only [shape]
+        split
+        · simp [dirty, dirtyKids]
+        · simp only [dirty, Bool.false_and, Bool.false_or]
+          simpa [isBufKind, kp, ke, km, kf] using shapeAll_clean vs e false he
+      | flist e n =>
+        simp [cleanTy] at h
+        simp only [shape, dirty]
+        simpa [isBufKind, kp, ke, km, kf] using shapeAll_clean vs e true h
+      | map k v' =>
+        simp [cleanTy] at h
+        obtain ⟨⟨huf, hk⟩, hv⟩ := h
+        subst huf
+        simp only [shape, dirty, Bool.false_and, Bool.false_or]
+        simpa [isBufKind, kp, ke, km, kf] using shapeEntries_clean vs k v' false hk hv
+      | _ => simp [shape, dirty, dirtyKids, isBufKind]
+  | .record vs, t, uf, h => by
+      cases t with
+      | record fs =>
+        simp [cleanTy] at h
+        simp only [shape, dirty]
+        simpa [isBufKind, kp, ke, km, kf] using shapeFields_clean vs fs uf h
+      | tuple fs =>
+        simp [cleanTy] at h
+        simp only [shape, dirty]
+        simpa [isBufKind, kp, ke, km, kf] using shapeFields_clean vs fs uf h
+      | _ => simp [shape, dirty, dirtyKids, isBufKind]
+  | .variant i pv, t, uf, h => by
+      cases t with
+      | variant cs =>
+        simp [cleanTy] at h
+        simp only [shape, dirty]
+        cases hc : cs[i]? with
+        | none => simp [dirtyKids, isBufKind]
+        | some c => simpa [isBufKind, kp, ke, km, kf] using shapeOpt_clean pv c uf (cleanAllOpt_get uf cs i c h hc)
+      | option t' =>
+        cases pv with
+        | none => simp [shape, dirty, dirtyKids, isBufKind]
+        | some v =>
+          simp [cleanTy] at h
+          simp only [shape, dirty, dirtyKids]
+          simpa [isBufKind, kp, ke, km, kf] using shape_clean v t' uf h
+      | result a b =>
+        simp [cleanTy] at h
+        cases i with
+        | zero =>
+          simp only [shape, dirty]
+          simpa [isBufKind, kp, ke, km, kf] using shapeOpt_clean pv a uf h.1
+        | succ i =>
+          simp only [shape, dirty]
+          simpa [isBufKind, kp, ke, km, kf] using shapeOpt_clean pv b uf h.2
+      | _ => simp [shape, dirty, dirtyKids, isBufKind]
+  | .bool _, t, uf, _ => by cases t <;> simp [shape, dirty, dirtyKids, isBufKind]
+  | .int _, t, uf, _ => by cases t <;> simp [shape, dirty, dirtyKids, isBufKind]
+  | .f32 _, t, uf, _ => by cases t <;> simp [shape, dirty, dirtyKids, isBufKind]
+  | .f64 _, t, uf, _ => by cases t <;> simp [shape, dirty, dirtyKids, isBufKind]
+  | .char _, t, uf, _ => by cases t <;> simp [shape, dirty, dirtyKids, isBufKind]
+  | .flags _, t, uf, _ => by cases t <;> simp [shape, dirty, dirtyKids, isBufKind]
+  | .enum _, t, uf, _ => by cases t <;> simp [shape, dirty, dirtyKids, isBufKind]
+  | .handle _, t, uf, _ => by cases t <;> simp [shape, dirty, dirtyKids, isBufKind]
+theorem shapeAll_clean : ∀ (vs : List Val) (t : Ty) (uf : Bool), cleanTy uf t = true → dirtyKids uf (shapeAll t vs) = false
+  | [], _, _, _ => by simp [shapeAll, dirtyKids]
+  | v :: vs, t, uf, h => by
+      simp [shapeAll, dirtyKids, shape_clean v t uf h, shapeAll_clean vs t uf h]
+theorem shapeEntries_clean : ∀ (vs : List Val) (k v : Ty) (uf : Bool), cleanTy uf k = true → cleanTy uf v = true →
+    dirtyKids uf (shapeEntries k v vs) = false
+  | [], _, _, _, _, _ => by simp [shapeEntries, dirtyKids]
+  | .record [x, y] :: vs, k, v, uf, hk, hv => by
+      simp [shapeEntries, dirtyKids, shape_clean x k uf hk, shape_clean y v uf hv, shapeEntries_clean vs k v uf hk hv]
+  | .record [] :: _, _, _, _, _, _ | .record [_] :: _, _, _, _, _, _ | .record (_ :: _ :: _ :: _) :: _, _, _, _, _, _
+  | .bool _ :: _, _, _, _, _, _ | .int _ :: _, _, _, _, _, _ | .f32 _ :: _, _, _, _, _, _ | .f64 _ :: _, _, _, _, _, _
+  | .char _ :: _, _, _, _, _, _ | .str _ :: _, _, _, _, _, _ | .list _ :: _, _, _, _, _, _ | .flags _ :: _, _, _, _, _, _
+  | .variant _ _ :: _, _, _, _, _, _ | .enum _ :: _, _, _, _, _, _ | .handle _ :: _, _, _, _, _, _ => by
+      simp [shapeEntries, dirtyKids]
+theorem shapeFields_clean : ∀ (vs : List Val) (ts : List Ty) (uf : Bool), cleanAll uf ts = true →
+    dirtyKids uf (shapeFields ts vs) = false
+  | [], ts, _, _ => by cases ts <;> simp [shapeFields, dirtyKids]
+  | v :: vs, [], _, _ => by simp [shapeFields, dirtyKids]
+  | v :: vs, t :: ts, uf, h => by
+      simp [cleanAll] at h
+      simp [shapeFields, dirtyKids, shape_clean v t uf h.1, shapeFields_clean vs ts uf h.2]
+theorem shapeOpt_clean : ∀ (pv : Option Val) (o : Option Ty) (uf : Bool), cleanOpt uf o = true →
+    dirtyKids uf (shapeOpt o pv) = false
+  | none, o, _, _ => by cases o <;> simp [shapeOpt, dirtyKids]
+  | some v, none, _, _ => by simp [shapeOpt, dirtyKids]
+  | some v, some t, uf, h => by
+      simp [cleanOpt] at h
+      simp [shapeOpt, dirtyKids, shape_clean v t uf h]
+end
+
 end Witverif.Abi.RustLedger
